@@ -67,11 +67,83 @@ func (tr *Tr) merge(sts []*State, conds []*Term) *State {
 	for _, k := range ks {
 		t := tr.get(sts[len(sts)-1], k)
 		for i := len(sts) - 2; i >= 0; i-- {
-			t = tr.f.Ite(conds[i], tr.get(sts[i], k), t)
+			t = tr.mergeTerm(conds[i], tr.get(sts[i], k), t, 0)
 		}
 		out.C[k] = t
 	}
 	return out
+}
+
+// mergeTerm builds ite(c, a, b) for state components, keeping store chains linear: two chains over a common base
+// that write the same indices are merged element-wise; a chain that extends the other is merged per extra store.
+func (tr *Tr) mergeTerm(c, a, b *Term, depth int) *Term {
+	f := tr.f
+	if a == b {
+		return a
+	}
+	if a.S.K != KArr || depth > 64 {
+		return f.Ite(c, a, b)
+	}
+	// same index on top of both chains
+	if a.Op == "store" && b.Op == "store" && a.Args[1] == b.Args[1] {
+		base := tr.mergeTerm(c, a.Args[0], b.Args[0], depth+1)
+		if base.Op != "ite" || a.Args[0] == b.Args[0] {
+			return f.Store(base, a.Args[1], tr.mergeTerm(c, a.Args[2], b.Args[2], depth+1))
+		}
+		return f.Ite(c, a, b)
+	}
+	// a extends b: a = store(...store(b, i1, v1)..., in, vn)
+	if n := chainOver(a, b); n > 0 && n <= 48 {
+		return tr.extendMerge(c, a, b, true)
+	}
+	if n := chainOver(b, a); n > 0 && n <= 48 {
+		return tr.extendMerge(c, b, a, false)
+	}
+	return f.Ite(c, a, b)
+}
+
+// chainOver: number of stores on top of base in chain t (0 if base is not below t).
+func chainOver(t, base *Term) int {
+	n := 0
+	for t.Op == "store" {
+		t = t.Args[0]
+		n++
+		if t == base {
+			return n
+		}
+		if n > 64 {
+			return 0
+		}
+	}
+	return 0
+}
+
+// extendMerge: long = stores over short. Result: the same stores over short, each value guarded by the condition.
+func (tr *Tr) extendMerge(c, long, short *Term, longWhenTrue bool) *Term {
+	f := tr.f
+	var idx, val []*Term
+	for t := long; t != short; t = t.Args[0] {
+		idx = append(idx, t.Args[1])
+		val = append(val, t.Args[2])
+	}
+	cur := short
+	for i := len(idx) - 1; i >= 0; i-- {
+		old := f.Select(cur, idx[i])
+		var v *Term
+		if val[i].S.K == KArr {
+			if longWhenTrue {
+				v = tr.mergeTerm(c, val[i], old, 1)
+			} else {
+				v = tr.mergeTerm(c, old, val[i], 1)
+			}
+		} else if longWhenTrue {
+			v = f.Ite(c, val[i], old)
+		} else {
+			v = f.Ite(c, old, val[i])
+		}
+		cur = f.Store(cur, idx[i], v)
+	}
+	return cur
 }
 
 // ---------- heap
